@@ -49,7 +49,9 @@ Construct(c, v) ==
   /\ heap' = Append(heap, Obj(c, v, IF c \in {"cont", "deep"} THEN v ELSE 0))
   /\ obs' = O(<<"new", Len(heap')>>)
 
-(* assignment or deletion of an existing or a new attribute: rejected, nothing changes *)
+(* assignment or deletion of an existing or a new attribute - or of a special one: __dict__, __class__, any __x__ - is
+   rejected, nothing changes *)
+Pokes == {"set_existing", "set_new", "del_existing", "del_new", "set_dunder", "del_dunder"}
 Poke(i, how) ==
   /\ Op /\ i \in DOMAIN heap
   /\ heap' = IF Bug = "setattr_allowed" /\ how = "set_new" THEN [heap EXCEPT ![i].val = 9] ELSE heap
@@ -97,7 +99,7 @@ Compare(i, j) ==
      obs' = O(<<"eq", e, e, ~e, ~e, i, j>>)
 
 Next == \/ \E c \in Classes, v \in 0..2 : Construct(c, v)
-        \/ \E i \in Ids : \/ \E how \in {"set_existing", "set_new", "del_existing", "del_new"} : Poke(i, how)
+        \/ \E i \in Ids : \/ \E how \in Pokes : Poke(i, how)
                           \/ MutateInput(i)
                           \/ \E how \in {"valid", "invalid", "invalid_eq", "unknown"} : Updated(i, how)
                           \/ \E deep \in BOOLEAN : Copy(i, deep)
@@ -110,7 +112,7 @@ TypeOK == Len(heap) <= MaxObjs
 (* C04: a state instance never changes observable value *)
 Frozen == [][\A i \in DOMAIN heap : heap'[i].cls = heap[i].cls /\ heap'[i].val = heap[i].val]_vars
 (* C04: assigning or deleting attributes is rejected *)
-PokeRejected == obs.res[1] \in {"set_existing", "set_new", "del_existing", "del_new"} => obs.res[2] = "AttributeError"
+PokeRejected == obs.res[1] \in Pokes => obs.res[2] = "AttributeError"
 (* C04: an updated copy replaces exactly the named attributes and leaves the original untouched;
    copy and deep copy yield equal instances *)
 DerivedRight ==
